@@ -38,8 +38,8 @@ C["C01"] = dict(level="other",
  stubs=["zzMsgs (socket.Messages)", "funcs model", "zzBytesCodec (body codec)", "hslam/log (empty bodies)"],
  bounds={"calls per connection": "quick 2, thorough 3", "payload": "1 symbolic byte per call (client), 1 or 10 bytes (server)", "initial sequence number": "quick 0; thorough: any 64-bit value (symbolic)", "framing": "2 frames, payloads 0..2 and 1..2 bytes, every chunking of the stream", "schedules": SCHED, "pool policy": "sync.Pool LIFO reuse (maximal aliasing)"},
  outside=["TCP itself, the auto-batching writer of hslam/writer", "more outstanding calls than the bound", "Transport/Client wrappers (address routing is C14/C16)", "payloads larger than the stated sizes (header codecs at all boundaries: C07)"],
- runs={"quick": [run("CLI", labels=CLI_C01), run("SRV", labels=SRV_C01), run("FRAM")],
-       "thorough": [run("CLI", params={"cli.K": 3}, labels=CLI_C01, budget=900), run("CLI", params={"cli.symseq": 1}, labels=CLI_C01, budget=900), run("SRV", params={"srv.N": 3, "srv.kinds": 3, "srv.arglens": 1, "srv.bufsizes": 1}, labels=SRV_C01, budget=1200), run("FRAM")]})
+ runs={"quick": [run("CLI", labels=CLI_C01), run("CLIb", labels=CLI_C01), run("SRV", labels=SRV_C01), run("SRV", params={"srv.nocopy": 1, "srv.N": 3, "srv.kinds": 2, "srv.arglens": 1, "srv.concrete": 1, "srv.bufsizes": 1}, labels=SRV_C01), run("FRAM")],
+       "thorough": [run("CLI", params={"cli.K": 3}, labels=CLI_C01, budget=900), run("CLI", params={"cli.symseq": 1}, labels=CLI_C01, budget=900), run("SRV", params={"srv.N": 3, "srv.kinds": 3, "srv.arglens": 1, "srv.bufsizes": 1}, labels=SRV_C01, budget=1200), run("SRV", params={"srv.nocopy": 1, "srv.N": 3, "srv.kinds": 3, "srv.arglens": 1, "srv.bufsizes": 1}, labels=SRV_C01, budget=1500), run("CLIb", params={"clib.K": 4}, labels=CLI_C01, budget=1200), run("FRAM")]})
 
 C["C02"] = dict(level="other",
  explanation="Symbolic execution of the real Conn code over the stub socket: K asynchronous calls; the environment delivers a bounded script of frames whose sequence numbers are chosen freely (own, duplicate, unknown), with or without error text, a write may fail, the peer may disconnect, the read may fail, the client may Close; every macro-step interleaving is explored. In every terminal state each call's Done channel holds the call exactly once. Each violation is attributed to the set of code sites that signalled the call (watch on (*Call).done).",
@@ -48,8 +48,8 @@ C["C02"] = dict(level="other",
  stubs=["zzMsgs (socket.Messages)", "zzBytesCodec (body codec)"],
  bounds={"calls": "2", "frames": "quick 2, thorough 3", "write faults": "at most 1", "modes": "default, directIO, client pipelining", "schedules": SCHED},
  outside=["Done channels without room", "more calls/frames than the bound", "schedules needing preemption inside a lock-free segment (thorough runs gran 1, P=1 on a smaller script)"],
- runs={"quick": [run("C02", labels=["exactly-once", "panic"]), run("CLI", labels=["each-call-signalled-once"])],
-       "thorough": [run("C02", params={"c02.F": 3}, labels=["exactly-once", "panic"], budget=1500), run("C02", P=1, gran=1, params={"c02.F": 1}, labels=["exactly-once", "panic"], budget=1500)]})
+ runs={"quick": [run("C02", labels=["exactly-once", "panic"]), run("CLI", labels=["each-call-signalled-once"]), run("C02r", P=1, gran=1, labels=["exactly-once", "outstanding-call-fails", "no-goroutine-stuck", "panic"])],
+       "thorough": [run("C02", params={"c02.F": 3}, labels=["exactly-once", "panic"], budget=1500), run("C02", P=1, gran=1, params={"c02.F": 1}, labels=["exactly-once", "panic"], budget=1500), run("C02r", P=2, gran=1, labels=["exactly-once", "outstanding-call-fails", "no-goroutine-stuck", "panic"], budget=900)]})
 
 C["C03"] = dict(level="other",
  explanation="Symbolic execution of the real Conn code: K blocking callers (Call or Ping), a correct server answers the first A requests and the connection is then cut at once (peer EOF / read error / local Close); a late call follows. Terminal-state assertions: no caller is blocked, unanswered calls fail (ErrShutdown for an orderly end), answered calls succeed with their own reply, the late call fails with ErrShutdown without writing, every goroutine exits.",
@@ -58,7 +58,7 @@ C["C03"] = dict(level="other",
  stubs=["zzMsgs (socket.Messages)", "zzBytesCodec"],
  bounds={"callers": "2 of either kind (thorough: 3 plain callers)", "cut": "after 0..K responses", "modes": "default, directIO, client pipelining", "schedules": SCHED},
  outside=["wall-clock bounds", "TLS/ws framing"],
- runs={"quick": [run("C03"), run("STRc", labels=["reader-unblocked", "blocked-read-returns-shutdown"])], "thorough": [run("C03", params={"c03.K": 3, "c03.pings": 0}, budget=1800), run("STRc", P=1, gran=1, params={"str.N": 1, "str.badwrite": 0}, labels=["reader-unblocked", "blocked-read-returns-shutdown"], budget=600)]})
+ runs={"quick": [run("C03"), run("STRc", labels=["reader-unblocked", "blocked-read-returns-shutdown", "open-fails-when-connection-ends-first"]), run("C02r", P=1, gran=1, labels=["outstanding-call-fails", "no-goroutine-stuck"])], "thorough": [run("C03", params={"c03.K": 3, "c03.pings": 0}, budget=1800), run("STRc", P=1, gran=1, params={"str.N": 1, "str.badwrite": 0}, labels=["reader-unblocked", "blocked-read-returns-shutdown"], budget=600)]})
 
 C["C04"] = dict(level="other",
  explanation="Symbolic execution of the real server path ServeCodec -> ServeRequest -> handleRequest -> readRequestBody -> callService -> sendResponse with the real serverCodec: N request frames of every kind (each handler shape, failing handler, unknown method, ping), symbolic argument bytes, all server modes (pipelining x directIO x context buffer x buffer size), frames arriving together or one by one; the execution log must contain exactly one entry per executable request with that request's own argument bytes, pings none, and the write log exactly one response per request with its sequence number.",
@@ -76,7 +76,7 @@ C["C05"] = dict(level="other",
  stubs=["zzMsgs", "funcs model", "zzBytesCodec"],
  bounds={"requests / calls": "2 (thorough 3)", "schedules": SCHED},
  outside=["ping responses relative to call responses", "write failures / connection loss in the client order (C02 harness covers completion, not order)"],
- runs={"quick": [run("SRV", params={"srv.pipelining": 1}, labels=SRV_C05), run("CLI", labels=["pipelined-completion-order"]), run("SRVp", labels=SRV_C05 + ["one-response-per-request", "no-extra-or-missing-execution"]), run("SRVp", P=1, gran=1, labels=SRV_C05 + ["one-response-per-request", "no-extra-or-missing-execution"], budget=300)],
+ runs={"quick": [run("SRV", params={"srv.pipelining": 1}, labels=SRV_C05), run("CLI", labels=["pipelined-completion-order"]), run("SRVp", labels=SRV_C05 + ["one-response-per-request", "no-extra-or-missing-execution"]), run("SRVp", P=1, gran=1, labels=SRV_C05 + ["one-response-per-request", "no-extra-or-missing-execution"], budget=300), run("SRVp2")],
        "thorough": [run("SRV", params={"srv.pipelining": 1, "srv.N": 3, "srv.kinds": 6, "srv.arglens": 1, "srv.bufsizes": 1}, labels=SRV_C05, budget=1500), run("CLI", params={"cli.K": 3}, labels=["pipelined-completion-order"], budget=900), run("SRVp", P=2, gran=1, params={"srv.N": 2}, labels=SRV_C05 + ["one-response-per-request", "no-extra-or-missing-execution"], budget=1500), run("SRVp", P=1, gran=1, params={"srv.N": 3, "srvp.yield": 1}, labels=SRV_C05 + ["one-response-per-request", "no-extra-or-missing-execution"], budget=1500)]})
 
 C["C06"] = dict(level="other",
@@ -86,7 +86,7 @@ C["C06"] = dict(level="other",
  stubs=["zzMsgs", "funcs model", "zzBytesCodec"],
  bounds={"calls": "2 (thorough 3)", "schedules": SCHED, "pool policy": "LIFO reuse"},
  outside=["json header (copies strings)", "reply marshal errors"],
- runs={"quick": [run("CLI", labels=["error-text-of-own-call", "reply-untouched-on-error", "no-error", "reply-of-own-args"]), run("SRV", params={"srv.kinds": 7}, labels=SRV_C06), run("C06w"), run("C06x")],
+ runs={"quick": [run("CLI", labels=["error-text-of-own-call", "reply-untouched-on-error", "no-error", "reply-of-own-args"]), run("SRV", params={"srv.kinds": 7}, labels=SRV_C06), run("SRV", params={"srv.kinds": 3, "srv.menu": 2, "srv.encoders": 3, "srv.concrete": 1}, labels=SRV_C06 + ["unencodable-reply-text"]), run("C06w"), run("C06x")],
        "thorough": [run("CLI", params={"cli.K": 3}, labels=["error-text-of-own-call", "reply-untouched-on-error", "no-error", "reply-of-own-args"], budget=900), run("SRV", params={"srv.kinds": 7, "srv.N": 3, "srv.arglens": 1, "srv.bufsizes": 1}, labels=SRV_C06, budget=2400), run("C06w"), run("C06x"), run("C06x", P=1, gran=1, budget=900)]})
 
 C["C07"] = dict(level="other",
@@ -127,7 +127,7 @@ C["C10"] = dict(level="other",
  stubs=["zzMsgs", "stub listener/socket", "funcs model"],
  bounds={"streams": "1", "schedules": SCHED},
  outside=["sibling streams", "real netpoll event loop"],
- runs={"quick": [run("STRc", labels=["reader-unblocked", "blocked-read-returns-shutdown", "read-after-shutdown", "write-after-shutdown", "stream-close-returns", "unary-call-after-stream-close", "close-request-flags"]), run("STRs", labels=["handler-returns-after-stream-or-connection-end", "no-goroutine-left"]), run("STRc", P=1, gran=1, params={"str.N": 1, "str.badwrite": 0}, labels=["reader-unblocked", "blocked-read-returns-shutdown", "read-after-shutdown", "write-after-shutdown", "stream-close-returns"], budget=300)],
+ runs={"quick": [run("STRc", labels=["reader-unblocked", "blocked-read-returns-shutdown", "read-after-shutdown", "write-after-shutdown", "stream-close-returns", "unary-call-after-stream-close", "close-request-flags"]), run("STRs", labels=["handler-returns-after-stream-or-connection-end", "no-goroutine-left"]), run("STRc", P=1, gran=1, params={"str.N": 1, "str.badwrite": 0}, labels=["reader-unblocked", "blocked-read-returns-shutdown", "read-after-shutdown", "write-after-shutdown", "stream-close-returns"], budget=300), run("STRc", params={"str.readers": 2, "str.N": 1, "str.badwrite": 0}, labels=["reader-unblocked", "blocked-read-returns-shutdown", "open-fails-when-connection-ends-first"])],
        "thorough": [run("STRc", P=1, gran=1, labels=["reader-unblocked", "blocked-read-returns-shutdown", "read-after-shutdown", "write-after-shutdown", "stream-close-returns"], budget=1500), run("STRs", P=1, gran=1, labels=["handler-returns-after-stream-or-connection-end", "no-goroutine-left"], budget=1500), run("STRc", params={"str.N": 3}, labels=["reader-unblocked", "blocked-read-returns-shutdown", "read-after-shutdown", "write-after-shutdown", "stream-close-returns", "unary-call-after-stream-close", "close-request-flags"]), run("STRs", params={"str.W": 2, "str.R": 2}, labels=["handler-returns-after-stream-or-connection-end", "no-goroutine-left"], budget=900)]})
 
 C["C11"] = dict(level="other",
@@ -186,7 +186,7 @@ C["C16"] = dict(level="other",
  stubs=["zzRT (RoundTripper)", "clock", "timers fire at quiescent points"],
  bounds={"operations": "quick 2, thorough 3", "target menu": "6 lists over {a,b,c} incl. duplicates/empty", "ticks": "2"},
  outside=["concurrent Update and Call (sequential histories)", "longer histories"],
- runs={"quick": [run("CLT", params={"clt.S": 2}, labels=CLT_C16), run("CLT", params={"clt.S": 2, "clt.slowping": 1, "clt.ticks": 1}, labels=CLT_C16, budget=300), run("C18u", labels=["routed-to-current-target", "live-list-rebuilt-after-update"]), run("C16p", labels=CLT_C16, budget=300)], "thorough": [run("C16p", params={"c16p.policies": 3}, labels=CLT_C16, budget=900), run("CLT", params={"clt.S": 3}, labels=CLT_C16, budget=1500), run("CLT", params={"clt.S": 3, "clt.slowping": 1, "clt.ticks": 1}, labels=CLT_C16, budget=2400), run("C18u", labels=["routed-to-current-target", "live-list-rebuilt-after-update"])]})
+ runs={"quick": [run("CLT", params={"clt.S": 2}, labels=CLT_C16), run("CLT", params={"clt.S": 2, "clt.slowping": 1, "clt.ticks": 1}, labels=CLT_C16, budget=300), run("C18u", labels=["routed-to-current-target", "live-list-rebuilt-after-update"]), run("C16p", labels=CLT_C16, budget=300), run("C16h", labels=CLT_C16)], "thorough": [run("C16p", params={"c16p.policies": 3}, labels=CLT_C16, budget=900), run("C16h", params={"c16h.allpolicies": 1, "c16h.firsts": 2, "clt.ticks": 2}, labels=CLT_C16, budget=1500), run("CLT", params={"clt.S": 3}, labels=CLT_C16, budget=1500), run("CLT", params={"clt.S": 3, "clt.slowping": 1, "clt.ticks": 1}, labels=CLT_C16, budget=2400), run("C18u", labels=["routed-to-current-target", "live-list-rebuilt-after-update"])]})
 
 C["C17"] = dict(level="other",
  explanation="Data-level symbolic execution of schedule/minHeap/heapDown/list/target.Update: round-robin from any cursor gives n distinct targets in n picks; Random picks list[i] for an arbitrary i in range; after minHeap the root is minimal and the heap is a permutation (arbitrary 64-bit latencies); LeastTime probes iff lastTime+Tick < now (symbolic clock and Tick), at most one probe per Tick, otherwise picks a minimal-latency target; target.Update follows the documented branch structure and its EWMA term equals the reference formula under IEEE-754 (differential query).",
@@ -205,8 +205,8 @@ C["C18"] = dict(level="other",
  stubs=["zzRT", "timers"],
  bounds={"concurrent callers": "quick 1, thorough 2", "ticks": "2"},
  outside=["wall-clock 'within a bounded detection time'", "more waiters"],
- runs={"quick": [run("C18w", params={"c18.N": 1}), run("C18u"), run("C18c"), run("C18c", P=1, gran=1), run("CLT", params={"clt.S": 2}, labels=["call-after-close-is-shutdown", "second-close-nil", "all-goroutines-exit-after-close", "unrouted-call-fails-with-timeout"])],
-       "thorough": [run("C18w", params={"c18.N": 2}, budget=1500), run("C18u"), run("C18c", P=2, gran=1, params={"c18.N": 2}, budget=900), run("C18w", P=1, gran=1, params={"c18.N": 1, "c18.ticks": 1}, budget=1500), run("CLT", params={"clt.S": 3}, labels=["call-after-close-is-shutdown", "second-close-nil", "all-goroutines-exit-after-close", "unrouted-call-fails-with-timeout"], budget=1500)]})
+ runs={"quick": [run("C18w", params={"c18.N": 1}), run("C18f"), run("C18u"), run("C18c"), run("C18c", P=1, gran=1), run("CLT", params={"clt.S": 2}, labels=["call-after-close-is-shutdown", "second-close-nil", "all-goroutines-exit-after-close", "unrouted-call-fails-with-timeout"])],
+       "thorough": [run("C18w", params={"c18.N": 2}, budget=1500), run("C18f", params={"c18.ticks": 4}), run("C18u"), run("C18c", P=2, gran=1, params={"c18.N": 2}, budget=900), run("C18w", P=1, gran=1, params={"c18.N": 1, "c18.ticks": 1}, budget=1500), run("CLT", params={"clt.S": 3}, labels=["call-after-close-is-shutdown", "second-close-nil", "all-goroutines-exit-after-close", "unrouted-call-fails-with-timeout"], budget=1500)]})
 
 C["C19"] = dict(level="other",
  explanation="One CallWithContext (harness-side context.Context with a buffer of symbolic stale contents and capacity smaller/equal/larger than the reply) and a sibling call on a real Conn; a correct server answers, the context is cancelled, or the call is never answered, in five scripts and every interleaving; a later call follows. CallWithContext returns (never stuck), with the context error when never answered, the reply when never cancelled, one of the two otherwise; the sibling and the later call get their own replies (a late response cannot land on a recycled call: LIFO pool reuse); buffer rules as in C11.",
@@ -224,8 +224,8 @@ C["C20"] = dict(level="other",
  stubs=["zzMsgs", "stub listener/socket", "zzRT"],
  bounds={"histories": "as in the C03, TR, CLT harnesses; server: 2 connections, 1 request"},
  outside=["OS sockets", "poll servers (excluded by the property)"],
- runs={"quick": [run("C03", labels=["every-goroutine-exits", "socket-closed", "second-close-reports-ErrShutdown", "repeated-close-reports-ErrShutdown"]), run("C20srv"), run("TR", params={"tr.S": 2}, labels=["close-closes-every-connection", "all-goroutines-exit-after-close"]), run("CLT", params={"clt.S": 2}, labels=["all-goroutines-exit-after-close", "transport-closed", "second-close-nil"])],
-       "thorough": [run("C03", params={"c03.K": 3, "c03.pings": 0}, labels=["every-goroutine-exits", "socket-closed", "second-close-reports-ErrShutdown", "repeated-close-reports-ErrShutdown"], budget=1800), run("C20srv"), run("TR", labels=["close-closes-every-connection", "all-goroutines-exit-after-close"]), run("CLT", params={"clt.S": 3}, labels=["all-goroutines-exit-after-close", "transport-closed", "second-close-nil"], budget=1500)]})
+ runs={"quick": [run("C03", labels=["every-goroutine-exits", "socket-closed", "second-close-reports-ErrShutdown", "repeated-close-reports-ErrShutdown"]), run("C20srv"), run("C20cl"), run("TR", params={"tr.S": 2}, labels=["close-closes-every-connection", "all-goroutines-exit-after-close"]), run("CLT", params={"clt.S": 2}, labels=["all-goroutines-exit-after-close", "transport-closed", "second-close-nil"])],
+       "thorough": [run("C03", params={"c03.K": 3, "c03.pings": 0}, labels=["every-goroutine-exits", "socket-closed", "second-close-reports-ErrShutdown", "repeated-close-reports-ErrShutdown"], budget=1800), run("C20srv"), run("C20cl"), run("C20cl", P=1, gran=1), run("TR", labels=["close-closes-every-connection", "all-goroutines-exit-after-close"]), run("CLT", params={"clt.S": 3}, labels=["all-goroutines-exit-after-close", "transport-closed", "second-close-nil"], budget=1500)]})
 
 json.dump(C, open('/verif/checks.json', 'w'), indent=1)
 print("wrote checks for", sorted(C))
